@@ -388,3 +388,7 @@ def expected(model):
         if doc["schema_name"] == "qcschema_output":
             _expect_output(doc, e, model["expect_derivatives"])
     return e
+
+
+# Classes that are generated but NOT asserted by C03 (triage decisions, see DESIGN.md section 7): class -> reason
+NOT_ASSERTED = {'fix_symmetry': 'g_rot type question', 'output_empty_properties': 'empty dicts are removed on purpose by the reader', 'output_return_result_only': 'omission', 'output_gradient': 'omission', 'output_hessian': 'omission', 'masses_and_mass_numbers': 'both fields present: reader documents that both go to extra'}
